@@ -59,6 +59,11 @@ C16_OBLIGATIONS = _inits("C16_CentreInsideItsGridCell", "C16_ReaderRecoversMesh"
 C16_CLAIM = ("Apalache: the grid cell between the vertices i and i+1 contains the centre of mesh cell i, the reader's reconstruction returns "
              "the mesh, and the x-fastest position i + nx (j + ny k) is a bijection between cells and positions for meshes of ANY size "
              "(spec/C16Core.tla; %d of %d obligations, reported, not relied on)")
+# spec/C09Core.tla: the OVF header's three descriptions of an axis, the reader's reconstruction, components adjacent in the data block
+C09_OBLIGATIONS = _inits("C09_HeaderConsistent", "C09_ReaderRecoversMesh", "C09_PositionInRange", "C09_ComponentsAdjacent")
+C09_CLAIM = ("Apalache: the OVF header of the specification is consistent in itself (xbase = xmin + xstepsize/2, xmax = xmin + xnodes xstepsize, "
+             "node i = centre of cell i), the reader's n = (xmax - xmin) / xstepsize is exact, and the position w + nv q in the data block "
+             "determines component and node number, for meshes of ANY size (spec/C09Core.tla; %d of %d obligations, reported, not relied on)")
 C14_CLAIM = ("Apalache: a subregion inside the mesh region, on cell faces and a whole positive number of cells long stays so under translation, "
              "scaling by any non-zero integer factor about any point and the half turn (spec/C14Core.tla, inductive invariant for "
              "unbounded coordinates; %d of %d obligations, reported, not relied on)")
